@@ -32,7 +32,7 @@ RULE = (
 STATE_MEASURE = "(record kind, field-shape classes: sign/zero of drag terms, exponent, designator presence, digits of element / revolution numbers, catalogue fault kind)"
 PROBES = [
     "grid_entry_bytes_equal", "free_entry_parsed_back", "digit_flips_rejected", "truncations_rejected", "line_number_subs_rejected", "catalogue_fault_checked",
-    "catalogue_warn_logged", "orbit_called_twice_with_mutation", "failed_frame_change_before_writing_back", "epoch_last_ms_before_midnight", "four_digit_element_number", "five_digit_revolutions",
+    "catalogue_warn_logged", "orbit_called_twice_with_mutation", "small_adjustment_written_back", "failed_frame_change_before_writing_back", "epoch_last_ms_before_midnight", "four_digit_element_number", "five_digit_revolutions",
     "negative_ndot", "negative_bstar", "zero_drag_terms", "empty_designator", "three_line_form", "damaged_entry_followed_by_valid",
 ]
 REAL_VS_STUB = "real: beyond.io.tle (Tle, from_orbit, from_string, orbit), Orbit/forms/Date; stub: none (the stored text is held by the simulated disk and corrupted there); model: independent fixed-column formatter / checksum / field reader"
@@ -454,6 +454,58 @@ def check_entry(ctx, R, TleR, e, t, k):
             "round-trip",
             dict(fp, kind="rewritten_text_differs", line=which if len(txt) == len(want_lines) else "count"),
             f"entry {k}: Tle.from_orbit(tle.orbit()) gives\n   " + "\n   ".join(txt) + "\nstored\n   " + "\n   ".join(want_lines),
+        )
+    small_adjustment(ctx, TleR, e, t, k)
+
+
+def small_adjustment(ctx, TleR, e, t, k):
+    """An orbit obtained from a parsed TLE is adjusted by a few printed units of one element (orbit determination, station keeping)
+    and written back: the new lines carry the new value at printed precision, the other element fields are unchanged."""
+    import math
+
+    fp = e["fp"]
+    l2 = e["l2"]
+    cols = [(8, 16, 1e4), (17, 25, 1e4), (26, 33, 1e7), (34, 42, 1e4), (43, 51, 1e4), (52, 63, 1e8)]
+    h = sum(ord(c) for c in l2) + 7 * k
+    idx = h % 6
+    units = 2 + (h // 6) % 29
+    lo, hi, sc = cols[idx]
+    try:
+        printed = [int(round(float(("0." + l2[a:b].strip()) if q == 2 else l2[a:b]) * f)) for q, (a, b, f) in enumerate(cols)]
+    except ValueError:
+        return
+    limit = {0: 1800000, 1: 3600000, 2: 9999999, 3: 3600000, 4: 3600000, 5: 1700000000}[idx]
+    if printed[idx] + units >= limit:
+        units = -units
+    if printed[idx] + units < 0:
+        return
+    o = t.orbit()
+    delta = units / sc
+    if idx == 2:
+        o[idx] = float(o[idx]) + delta
+    elif idx == 5:
+        o[idx] = float(o[idx]) + delta * 2 * math.pi / 86400.0
+    else:
+        o[idx] = float(o[idx]) + math.radians(delta)
+    try:
+        txt = str(TleR.from_orbit(o)).splitlines()
+    except Exception as ex:  # noqa
+        ctx.violate("write", dict(fp, kind="adjusted_orbit_not_written", exc=type(ex).__name__), f"entry {k}: an orbit from Tle.orbit() whose element {idx} was moved by {units} printed units cannot be written: {type(ex).__name__}: {ex}")
+        return
+    n2 = txt[-1]
+    ctx.checks += 1
+    ctx.probe("small_adjustment_written_back")
+    try:
+        got = [int(round(float(("0." + n2[a:b].strip()) if q == 2 else n2[a:b]) * f)) for q, (a, b, f) in enumerate(cols)]
+    except ValueError:
+        got = None
+    want = list(printed)
+    want[idx] += units
+    if got != want:
+        ctx.violate(
+            "write",
+            dict(fp, kind="adjusted_element_not_written", field=idx),
+            f"entry {k}: the orbit of the parsed TLE had element {idx} (i, raan, e, argp, M, n) moved by {units} printed units; written back as\n   {n2}\nparsed from\n   {l2}\nexpected element fields {want}, got {got}",
         )
 
 
